@@ -24,8 +24,10 @@
    equal to Model/C13Model.v): the tokenizer methods tk_* over the token record model; ifc_build_tree
    (NewickReader._parse_tree_statement: abstract, property C02 compiles it); the atomic object operations
    (ifc_ns_factory, rd_register_ns, ifc_tree_list_factory, rd_register_tree_list, ifc_new_mapper, rd_ns_*,
-   ifc_ns_new_taxon, ifc_ns_require_taxon, ifc_mapper_add_token, sset_*, tx_*, ifc_accession, ifc_comments_*,
-   ifc_set_tree_label, ifc_product); the definitions ifc_get_taxon_namespace, ifc_get_taxon_symbol_mapper,
+   ifc_ns_new_taxon, ifc_ns_require_taxon, sset_*, tx_*, ifc_accession, ifc_comments_*,
+   ifc_set_tree_label, ifc_product); ifc_new_mapper, ifc_mapper_add_token and ifc_mapper_lookup stand for methods of
+   NexusTaxonSymbolMapper that are COMPILED separately (Gen/RoutesMapper.v) and proved equal to them
+   (Proofs/C13GenMapper.v, Proofs/C13MapperTie.v); the definitions ifc_get_taxon_namespace, ifc_get_taxon_symbol_mapper,
    ifc_new_taxon_namespace, ifc_new_tree_list, ifc_parse_taxlabels, ifc_parse_translate, ifc_parse_taxa_block
    are NOT interface any more: they restate model functions and the compiled methods are proved equal to them. *)
 From Coq Require Import ZArith List Bool.
@@ -180,6 +182,19 @@ Definition ifc_mapper_add_token (s : gst) (gm : option gmap) (tok : option str) 
     Some (ns, add_translate_token lower (mapper_set_ns m (ns_taxa_at (r_k s) ns))
                 (match tok with Some x => x | None => s2z "None" end) (tx_index t))
   | None => None
+  end.
+(* <mapper>.lookup_taxon_symbol(symbol, create_taxon_if_not_found=b): the three-stage look-up of the mapper, which sees
+   the namespace object it manages; a taxon it creates is a new member of that namespace.  The method itself is COMPILED
+   (Gen/RoutesMapper.v, gm_lookup_taxon_symbol) and proved equal to lookup_taxon_symbol (Proofs/C13GenMapper.v). *)
+Definition otx_is_none (t : otaxon) : bool := match t with None => true | Some _ => false end.
+Definition ifc_mapper_lookup (s : gst) (gm : option gmap) (sym : option str) (create : bool)
+  : res (otaxon * option gmap * gst) :=
+  match gm with
+  | Some (ns, m) =>
+    let r := lookup_taxon_symbol lower (mapper_set_ns m (ns_taxa_at (r_k s) ns)) (o_text sym) create in
+    Ok (match fst r with Some i => Some (i, nth i (m_ns (snd r)) []) | None => None end,
+        Some (ns, snd r), st_set_k s (set_ns_taxa (r_k s) ns (m_ns (snd r))))
+  | None => Err AttrErr
   end.
 (* for x in <finite list>: body  (the body may raise) *)
 Fixpoint for_res {A B : Type} (f : A -> B -> res A) (l : list B) (a : A) : res A :=
